@@ -219,6 +219,45 @@ def subId (chan mkt : Str) : Str := chan ++ ['|'] ++ mkt
 /-- `ExchangeSub::new(sub).id()` (`subscriber/mapper.rs:52-56`). -/
 def subscriptionId (p : Pair) (i : Inst) : Str := subId (channel p i.kind) (market p.exch i)
 
+/-! ### The two instrument representations a `Subscription` can carry
+
+Every connector has **three** `Identifier<Market>` impls (e.g. `binance/market.rs:17-42`,
+`bitfinex/market.rs:15-36`, `bitmex/market.rs:15-38`, `bybit/market.rs:15-40`,
+`coinbase/market.rs:15-36`, `gateio/market.rs:21-46`, `kraken/market.rs:15-36`,
+`okx/market.rs:21-44`): for `Subscription<_, MarketDataInstrument, _>` and
+`Subscription<_, Keyed<Key, MarketDataInstrument>, _>` the market is *formatted* from the
+underlying (base / quote / kind: `market` above); for
+`Subscription<_, MarketInstrumentData<Key>, _>` (`barter-data/src/instrument.rs:53-58`, the type
+`generate_indexed_market_data_subscription_batches`, `streams/builder/dynamic/indexed.rs:64-99`,
+builds from the engine's `IndexedInstruments`) it is the instrument's `name_exchange` **verbatim**:
+no case mapping, no base/quote formatting. -/
+
+/-- The instrument a subscription carries: formatted-from-underlying, or `MarketInstrumentData
+{ name_exchange, kind }` (`instrument.rs:53-58`; the `kind` is what `InstrumentData::kind` hands to
+the Gateio channel impl and to `exchange_supports_instrument_kind_sub_kind`). -/
+inductive InstRep
+  | formatted (i : Inst)
+  | verbatim (name : Str) (kind : IKind)
+  deriving DecidableEq, Repr, Inhabited
+
+/-- `InstrumentData::kind` (`instrument.rs:22, 36-38, 47-49, 68-70`). -/
+def InstRep.kind : InstRep → IKind
+  | .formatted i => i.kind
+  | .verbatim _ k => k
+
+/-- `Identifier<Market>` of a `Subscription`, all three impls: the first two format the underlying
+(`market`), the third returns `name_exchange` as it is
+(`BinanceMarket(self.instrument.name_exchange.name().clone())`, binance/market.rs:39-41 and the
+same line in every other connector; Bitfinex writes `name_exchange.to_smolstr()`, its `Display` is
+the derived transparent one). -/
+def marketR (e : Exch) : InstRep → Str
+  | .formatted i => market e i
+  | .verbatim n _ => n
+
+/-- `ExchangeSub::new(sub).id()` for either representation (`subscriber/mapper.rs:52-56`; the
+channel impls are generic in the instrument type and read only `InstrumentData::kind`). -/
+def subscriptionIdR (p : Pair) (r : InstRep) : Str := subId (channel p r.kind) (marketR p.exch r)
+
 /-! ## Instrument map (`Map<InstrumentKey>`, an `FnvHashMap<SubscriptionId, Key>`) -/
 
 /-- association list with unique ids; instrument keys are `Nat` (position in the subscription
@@ -247,6 +286,14 @@ def mapFrom (p : Pair) (start : Nat) (m : IMap) : List Inst → IMap
   | i :: rest => mapFrom p (start + 1) (m.insert (subscriptionId p i) start) rest
 
 def mapOf (p : Pair) (subs : List Inst) : IMap := mapFrom p 0 [] subs
+
+/-- `WebSocketSubMapper::map` for a subscription list of either representation (the function is
+generic in `Instrument: InstrumentData`; the key is `subscription.instrument.key()`). -/
+def mapFromR (p : Pair) (start : Nat) (m : IMap) : List InstRep → IMap
+  | [] => m
+  | r :: rest => mapFromR p (start + 1) (m.insert (subscriptionIdR p r) start) rest
+
+def mapOfR (p : Pair) (subs : List InstRep) : IMap := mapFromR p 0 [] subs
 
 /-- The `Subscribed` arm of `BitfinexWebSocketSubValidator::validate`
 (`bitfinex/validator.rs:93-110`): the entry under `channel|market` is re-keyed to the decimal
@@ -389,6 +436,28 @@ def tradeOf (e : Exch) (it : Item) : EvKind :=
   | .gateioOptions => .trade it.price it.amount (signSide it.amount)
   -- everything else copies price, amount and the side field
   | _ => .trade it.price it.amount it.side
+
+/-- Which sign `PublicTrade.amount` carries as the code produces it (review C13-3). The property
+text constrains the traded quantity and the side, not the sign; the model mirrors the code. -/
+inductive SignConv
+  /-- `amount.abs()`: never negative (bitfinex/trade.rs:67-83) -/
+  | absolute
+  /-- the venue's signed size is kept: negative for sells (gateio/perpetual/trade.rs:70-78) -/
+  | signed
+  /-- the payload's amount field is copied (the venues send it unsigned, with a side field) -/
+  | asStated
+  deriving DecidableEq, Repr, Inhabited
+
+def Exch.signConv : Exch → SignConv
+  | .bitfinex => .absolute
+  | .gateioFuturesUsd | .gateioFuturesBtc | .gateioPerpetualsUsd | .gateioPerpetualsBtc
+  | .gateioOptions => .signed
+  | _ => .asStated
+
+/-- the `amount` field of a trade event (`none` for the other kinds) -/
+def EvKind.amount? : EvKind → Option Rat
+  | .trade _ a _ => some a
+  | _ => none
 
 /-- venues whose trade payload holds exactly one trade -/
 def Exch.singleTrade : Exch → Bool
@@ -581,6 +650,28 @@ inductive SpecOut
 
 def specVerdict (e : Exch) (subs : List Inst) (m : Str) : SpecOut :=
   match holders e subs m with
+  | [] => .rejected
+  | [k] => .attributed k
+  | _ => .ambiguous
+
+/-- The venue's symbol for a subscribed instrument of either representation: computed from the
+underlying, or — for `MarketInstrumentData` — the `name_exchange` the user supplied, which by the
+type's contract (`InstrumentNameExchange`: "the name the exchange uses") IS the venue symbol. -/
+def venueSymbolR (e : Exch) : InstRep → Str
+  | .formatted i => venueSymbol e i
+  | .verbatim n _ => n
+
+def holdersFromR (e : Exch) (start : Nat) : List InstRep → Str → List Nat
+  | [], _ => []
+  | r :: rest, m =>
+    if venueSymbolR e r = m then start :: holdersFromR e (start + 1) rest m
+    else holdersFromR e (start + 1) rest m
+
+def holdersR (e : Exch) (subs : List InstRep) (m : Str) : List Nat := holdersFromR e 0 subs m
+
+/-- The attribution rule of the property over either representation. -/
+def specVerdictR (e : Exch) (subs : List InstRep) (m : Str) : SpecOut :=
+  match holdersR e subs m with
   | [] => .rejected
   | [k] => .attributed k
   | _ => .ambiguous
